@@ -34,7 +34,7 @@ def shards(tier):
 
 
 def strategy(tier):
-    mixed = G.graph_strategy(G.OPTIN_NAMES * 2 + ['P0', 'P1', 'P3'], std=False, max_nodes=10)
+    mixed = G.graph_strategy(G.OPTIN_NAMES * 2 + ['P0', 'P1', 'P3', 'PM0', 'PM1'], std=False, max_nodes=10)
     return st.builds(lambda g, p: dict(g, protocol=p), mixed, st.sampled_from([2, 3, 4, 4, 5]))
 
 
@@ -61,6 +61,9 @@ def shapes():
             out.append(('chain3', [S(1), _inst(cls, a=0), _inst(par, c=1), _inst(par, c=2)]))
             out.append(('shared', [S(1), _inst(cls, a=0), _inst(par, x=1), _inst(par, y=1), {'t': 'list', 'items': [2, 3]}]))
             out.append(('shared_siblings', [S(1), _inst(cls, a=0), _inst(par, x=1, y=1)]))
+            # next to its one opt-in child the parent holds an instance of a class that merely derives from the marker base (not opt-in)
+            out.append(('optin_child_and_marker_derived_plain', [S(1), _inst(cls, a=0), _inst('PM0', a=0), _inst(par, x=1, m=2)]))
+            out.append(('optin_child_and_marker_derived_plain1', [S(1), _inst(cls, a=0), _inst('PM1', a=0), _inst(par, m=2, x=1)]))
     cases = []
     for name, nodes in out:
         cases.append({'nodes': nodes, 'links': [], 'root': -1, 'protocol': 4, 'shape': name})
